@@ -26,6 +26,7 @@ from ._compat import (
     Sequence,
     Set,
     TypeAlias,
+    adapted_fields,
     fields,
     get_final_base,
     get_newtype_base,
@@ -141,6 +142,14 @@ AnyStructureHookFactory = TypeVar(
 UnstructureHookT = TypeVar("UnstructureHookT", bound=UnstructureHook)
 StructureHookT = TypeVar("StructureHookT", bound=StructureHook)
 CounterT = TypeVar("CounterT", bound=Counter)
+
+
+def _resolved_fields(cl: type) -> Iterable[Any]:
+    """`fields(cl)`, with PEP 563 (stringified) annotations resolved."""
+    attrs = fields(cl)
+    if any(isinstance(a.type, str) for a in attrs):
+        return adapted_fields(cl)
+    return attrs
 
 
 class UnstructureStrategy(Enum):
@@ -587,7 +596,7 @@ class BaseConverter:
     # Classes to Python primitives.
     def unstructure_attrs_asdict(self, obj: Any) -> dict[str, Any]:
         """Our version of `attrs.asdict`, so we can call back to us."""
-        attrs = fields(obj.__class__)
+        attrs = _resolved_fields(obj.__class__)
         dispatch = self._unstructure_func.dispatch
         rv = self._dict_factory()
         for a in attrs:
@@ -598,7 +607,7 @@ class BaseConverter:
 
     def unstructure_attrs_astuple(self, obj: Any) -> tuple[Any, ...]:
         """Our version of `attrs.astuple`, so we can call back to us."""
-        attrs = fields(obj.__class__)
+        attrs = _resolved_fields(obj.__class__)
         dispatch = self._unstructure_func.dispatch
         res = []
         for a in attrs:
@@ -713,7 +722,7 @@ class BaseConverter:
         """Load an attrs class from a sequence (tuple)."""
         conv_obj = []  # A list of converter parameters.
         conv_kw_obj = {}  # Keyword-only converter parameters.
-        for a, value in zip(fields(cl), obj):
+        for a, value in zip(_resolved_fields(cl), obj):
             if not a.init:
                 # Not an `__init__` parameter, so it cannot be passed in.
                 continue
@@ -753,7 +762,7 @@ class BaseConverter:
         # For public use.
 
         conv_obj = {}  # Start with a fresh dict, to ignore extra keys.
-        for a in fields(cl):
+        for a in _resolved_fields(cl):
             if not a.init:
                 # Not an `__init__` parameter, so it cannot be passed in.
                 continue
